@@ -79,37 +79,41 @@ def obligations(tier):
                   stubs=[S_STREAM], bounds=f'every byte string of length <= {n} (symbolic bytes)',
                   claim='_read_until returns exactly the prefix before the first CRLF (consuming it) or None; terminates'))
 
-    # ---- reader: structure-aware mutations
+    # ---- reader: structure-aware mutations (quick: all mutation kinds in one process per failure mode; thorough: one per kind,
+    #      each mutation additionally combined with a truncation of 0..11 bytes)
     nshape = 9 if q else 13
-    for k, kname in enumerate(KINDS):
+    for k, kname in ([(None, 'all')] if q else list(enumerate(KINDS))):
         for f, fname in FOCUS:
-            bind = {'kind': k, 'focus': f, 'nshape': nshape}
-            if k != 8 and q:
-                bind['cut'] = -1
-            obs.append(Ob(f'C13.dechunk.mut.{kname}.{fname}', 'harness.C13', 'dechunk_mutated', bind=bind, timeout=t, twin=(f == 0),
-                          functions=READER, stubs=[S_STREAM],
+            bind = {'focus': f, 'nshape': nshape, 'combo': not q and k != 8}
+            if k is not None:
+                bind['kind'] = k
+            obs.append(Ob('C13.dechunk.mut.' + (f'{kname}.' if k is not None else '') + fname, 'harness.C13', 'dechunk_mutated', bind=bind,
+                          timeout=t, twin=(f == 0), functions=READER, stubs=[S_STREAM],
                           bounds=f'valid chunked message with {nshape} shapes of <= {2 if q else 3} data chunks (sizes 1..17) + last '
-                                 f'chunk, one "{kname}" mutation at any chunk with every variant of that kind'
-                                 + ('' if (q or k == 8) else ', additionally cut 0..11 bytes from the end'),
+                                 'chunk; ' + ('one mutation of any kind (' + ', '.join(KINDS[1:]) + ')' if k is None else f'one "{kname}" mutation')
+                                 + ' at any chunk with every variant of that kind; truncation at every offset'
+                                 + ('' if (q or k == 8) else '; additionally cut 0..11 bytes from the end'),
                           claim='no endless read loop' if f == 0 else 'only DechunkError leaves _read_dechunk'))
 
     # ---- reader: header cross product
     for f, fname in FOCUS:
-        obs.append(Ob(f'C13.request_body.framing.{fname}', 'harness.C13', 'request_body', bind={'ce': 0, 'se': 0, 'focus': f}, timeout=t,
-                      twin=(f == 0), functions=BODY, stubs=[S_STREAM, S_HDR],
-                      bounds='8 transfer-encoding x 13 content-length values (absent, valid, sloppy, junk) x 11 body streams',
+        obs.append(Ob(f'C13.request_body.framing.{fname}', 'harness.C13', 'request_body', bind={'ce': 0, 'se': 0, 'pool': 0, 'focus': f},
+                      timeout=t, twin=(f == 0), functions=BODY, stubs=[S_STREAM, S_HDR],
+                      bounds='8 transfer-encoding x 13 content-length values (absent, valid, sloppy, junk) x 11 body streams (plain, '
+                             'chunked, malformed and truncated chunked)',
                       claim='read_request_body terminates' if f == 0 else
-                      'read_request_body returns bytes/None or raises DechunkError/DecompressError'))
+                      'read_request_body returns bytes/None or raises one of the exceptions defined by httpreader'))
     for func in ('request_body', 'response_body'):
-        for te, cl, nm in ((0, 4, 'content-length'), (1, 0, 'chunked'), (0, 0, 'unframed')):
-            obs.append(Ob(f'C13.{func}.coding.{nm}', 'harness.C13', func, bind={'te': te, 'cl': cl, 'focus': 2}, timeout=t,
+        for te, cl, pool, nm in ((0, 4, 1, 'content-length'), (1, 0, 2, 'chunked'), (0, 0, 1, 'unframed')):
+            obs.append(Ob(f'C13.{func}.coding.{nm}', 'harness.C13', func, bind={'te': te, 'cl': cl, 'pool': pool, 'focus': 2}, timeout=t,
                           twin=(nm == 'content-length'), functions=BODY, stubs=[S_STREAM, S_HDR, S_CODEC],
-                          bounds=f'{nm} framing; 8 content-encoding values x 4 supported_encodings arguments x 11 body streams',
-                          claim=f'{func} returns or raises DechunkError/DecompressError (or the codec refuses corrupt data)'))
-    obs.append(Ob('C13.response_body.framing', 'harness.C13', 'response_body', bind={'ce': 0, 'se': 0, 'focus': 2}, timeout=t,
+                          bounds=f'{nm} framing; 8 content-encoding values x 4 supported_encodings arguments x '
+                                 f'{"4 well-formed chunked" if pool == 2 else "5 unframed"} body streams (plain, gzip, truncated gzip)',
+                          claim=f'{func} returns or raises an exception defined by httpreader (or the codec refuses corrupt data)'))
+    obs.append(Ob('C13.response_body.framing', 'harness.C13', 'response_body', bind={'ce': 0, 'se': 0, 'pool': 0, 'focus': 2}, timeout=t,
                   functions=BODY, stubs=[S_STREAM, S_HDR],
                   bounds='8 transfer-encoding x 13 content-length values x 11 body streams',
-                  claim='read_response_body terminates and returns bytes (or a documented rejection)'))
+                  claim='read_response_body terminates and returns bytes (or raises an exception defined by httpreader)'))
 
     # ---- middleware alone
     obs.append(Ob('C13.middleware.post', 'harness.C13', 'middleware_post', timeout=t, functions=MIDDLE, stubs=[S_XML, S_SVC, S_HDR],
